@@ -7,7 +7,8 @@
    per run by correspondence and by fuzzing the implementation (harness/c17.py), not by a theorem. *)
 From stdpp Require Import gmap.
 From Coq Require Import ZArith List.
-From Measured Require Import Model.FMap Model.Units Model.Parse Model.ParseCheck Proofs.ParseFacts.
+From Coq Require Import NArith.
+From Measured Require Import Model.FMap Model.Units Model.Parse Model.ParseCheck Proofs.ParseFacts Model.LR Model.Lex Proofs.LexFacts.
 Import ListNotations.
 
 (* Unit.parse on a term sequence: the transformer's KeyError is passed on; everything else the
@@ -39,3 +40,25 @@ Print Assumptions C17_unknown_symbol.
 
 Example C17_nonvacuous : unit_parse (MkSym [] [] []) [([122%Z; 122%Z], 1%Z)] None = RaisesKeyError.
 Proof. vm_compute. reflexivity. Qed.
+
+(* ---- the scanner (Model/Lex.v): total by construction, and it makes progress ----
+   Every token the lexer hands to the parser is text that stands in the input after a skipped (ignored) stretch, and the
+   rest is strictly shorter: the recursion on the length of the text is all the lexer needs, nothing is lost or
+   invented, and the only ways lexing ends are a token, the end of the text, or "no terminal matches here". *)
+Theorem C17_lexer_progress : forall ignore n cands s t rest,
+  next_token ignore n cands s = SToken t rest ->
+  length rest < length s /\ exists skipped, s = skipped ++ snd t ++ rest.
+Proof. exact next_token_progress. Qed.
+Print Assumptions C17_lexer_progress.
+
+Theorem C17_match_is_prefix : forall r s rest, rmatch r s = Some rest -> exists pre, s = pre ++ rest.
+Proof. exact rmatch_suffix. Qed.
+Print Assumptions C17_match_is_prefix.
+
+(* the outcomes of the text-level parser are a tree or one of two exception classes; PBroken (table or fuel exhausted)
+   is excluded per run: the model is evaluated on every sampled text next to the implementation (the Run_text obligations) *)
+Theorem C17_text_outcomes : forall order ignore rules infos filtered terminals end_sym T s,
+  match parse_text order ignore rules infos filtered terminals end_sym T s with
+  | PTree _ | PUnexpectedCharacters | PUnexpectedToken | PBroken => True
+  end.
+Proof. intros. destruct (parse_text _ _ _ _ _ _ _ _ _); exact I. Qed.
